@@ -145,8 +145,11 @@ def run(tier: str, rep: Report):
 
     df.negative_control(rep, files, "Trace_Decode", corrupt, ("P04.params",))
     df.classify(rep, fails, ("P04.",), PID, keyfn)
-    if rep.cov["recorded"]["uncompilable"] > 8 * 4:
-        rep.machinery_error(f"{rep.cov['recorded']['uncompilable']} rendered sources did not compile")
+    # positional-only renderings are not programs for 3.7 (the model emits none for it); generated corpus programs
+    # (hypothesmith, thorough tier) may use newer syntax: only the check's own renderings count here
+    own = [u for u in getattr(rep, "_uncompilable", []) if u.startswith(("sig:", "scope:"))]
+    if len(own) > 8 * 4:
+        rep.machinery_error(f"{len(own)} rendered signature sources did not compile: {own[:3]}")
     for v in ("38",):
         for sh in shapes[v][:: max(1, len(shapes[v]) // 3)][:3]:
             rep.sample({"ver": v, "shape[npo,npk,nko,va,vk,kind]": sh, "source": render(sh, "plain")[0]})
